@@ -452,7 +452,6 @@ func ruleSliceWrap(c *Ctx) {
 	c.Floor("T.slicewrap", 5)
 }
 
-
 // sliceLive: FEAS over CodecForTypeRegistry with typ.Kind() forced to
 // reflect.Slice and every Codec.WireType() result forced to wt: the module
 // codec types whose MakeInterface value still reaches a use.
